@@ -13,8 +13,8 @@ from ..runner import Entry, differential
 from . import c13_geom as g
 from . import c13_translate as tr
 
-PRE = ("From Coq Require Import QArith.\nFrom EsVerif.Common Require Import Base.\n"
-       "From EsVerif.C13 Require Import Model Spec Exec.\nOpen Scope Z_scope.\n")
+PRE = ("From Coq Require Import QArith PrimFloat.\nFrom EsVerif.Common Require Import Base.\n"
+       "From EsVerif.C13 Require Import Model Spec Exec FloatModel ExecF.\nOpen Scope Z_scope.\n")
 KNOWN_CLASS = "C13.kf_cos_resolution"
 MAXDEPTH = 20
 BORDER = 1e-9 * (1 + 1e-6)      # the statement's unconstrained zone (relative), with a hair for the oracle
@@ -24,7 +24,8 @@ _H = {}
 
 # what c13_translate read out of the sources of the tree under test; the defaults (statement: floor,
 # no margin) are used only when the translation failed, which is reported as a violation by run()
-GEN = {"index": "floor", "pad_deg": Fraction(0), "epsilon": Fraction(1, 10 ** 15), "error": None}
+GEN = {"index": "floor", "pad_deg": Fraction(0), "epsilon": Fraction(1, 10 ** 15), "save_depth": 2,
+       "gPi": Fraction("3.1415926535897932385"), "error": None}
 
 
 def load_gen():
@@ -150,11 +151,26 @@ class Ids(C13Entry):
         self.remember(c, out)
         return out
 
+    @staticmethod
+    def xyz(ra, dec):
+        """SpatialVector::updateXYZ (SpatialVector.cpp:181-186) with the same libm calls in the same order; the shape of
+        that function and the literal of gPi are checked / read by c13_translate"""
+        gpr = float(GEN["gPi"]) / 180.0
+        cd = math.cos(dec * gpr)
+        return math.cos(ra * gpr) * cd, math.sin(ra * gpr) * cd, math.sin(dec * gpr)
+
+    def _fterm(self, fn, c, out):
+        o = out[1]
+        items = []
+        for (ra, dec), a, s_ in zip(c["pts"], o["arr"], o["sc"]):
+            x, y, z = self.xyz(float(ra), float(dec))
+            items.append("(mkvec %s %s %s, %s, %s)" % (core.cfloat(x), core.cfloat(y), core.cfloat(z), clist(a), clist(s_)))
+        return "%s %s %d [%s]" % (fn, core.cfloat(float(GEN["epsilon"])), GEN["save_depth"], "; ".join(items))
+
     def term(self, c, out):
         if out[0] != "ok":
             return "3"          # lookup_id raised on a position of the sphere
-        o = out[1]
-        return "v_ids [%s]" % "; ".join("(%s, %s)" % (clist(a), clist(s)) for a, s in zip(o["arr"], o["sc"]))
+        return self._fterm("v_ids_f", c, out)
 
     def nontrivial(self, c, out):
         return out[0] == "ok" and len(c["pts"]) >= 1
@@ -163,9 +179,7 @@ class Ids(C13Entry):
         _, out = self._seen[key(c)]
         if out[0] != "ok":
             return None
-        o = out[1]
-        return "map (fun p => (ids_point_agree p, ids_point_ok p)) [%s]" % "; ".join(
-            "(%s, %s)" % (clist(a), clist(s)) for a, s in zip(o["arr"], o["sc"]))
+        return self._fterm("show_ids_f", c, out)
 
 
 # ----------------------------------------------------------------------------------------------
@@ -667,7 +681,7 @@ def run(ctx, replay=None):
                 "distinct by canonical JSON.  Positions/pairs within 1e-9 relative of a circle/bin edge are unconstrained (counted as "
                 "code 0 / tag 2).")
     ctx.trusted = TRUSTED
-    if not core.proof_step(ctx, "C13", core.ALLOW_REALS):
+    if not core.proof_step(ctx, "C13", core.ALLOW_REALS + core.ALLOW_FLOAT, extra_targets=("theories/C13/ExecF.vo",)):
         return
     res, bad, _ = core.assumptions(ctx.work, "C13.Properties", DISCRETE, core.ALLOW_DISCRETE)
     ctx.obligation("the %d discrete C13 theorems are closed under the global context" % len(DISCRETE), not bad, str(bad[:3]))
